@@ -156,7 +156,7 @@ def _replay_batch(ctx, prop, runs, cases):
         if c.get("none_output") is not None:
             continue   # the model's values are never None: this case only replays a known finding on the implementation
         ctx.traces += 1
-        d = S.compare(r["trace"], mo)
+        d = S.compare(r["trace"], mo, fifo=c["fifo"])
         if d:
             ctx.disagree("controller-phase", {"spec": c["spec"], "workers": c["workers"], "seed": c["seed"], "fifo": c["fifo"]}, d.get("model"), {k2: v for k2, v in d.items() if k2 != "model"})
             continue
